@@ -313,14 +313,27 @@ func flScanSnapshot(c *Ctx, a *flAgg) {
 				// something else than EOF)
 				for _, w := range writes {
 					we := extractOf(w.Val, 1)
-					if wnil, have := p.lit("(" + we + " == nil)"); have && !wnil {
+					// (a write whose error is never tested may have failed)
+					if wnil, have := p.lit("(" + we + " == nil)"); !have || !wnil {
 						scanOK := true
 						for _, sc := range scans {
 							if v, ok := p.lit("(" + extractOf(sc.Val, 1) + " == nil)"); !ok || !v {
 								scanOK = false // scan failed first (or was not tested): its error stands
 							}
 						}
-						if ((rnilOK && rnil) || reof) && scanOK && es != we {
+						// the reader is known to have failed with something else than EOF
+						rBad := rnilOK && !rnil && !reof
+						if rBad {
+							neof := false
+							for _, lt := range p.Lits {
+								s := lt.Atom.String()
+								if !lt.Pol && strings.Contains(s, rerr) && strings.Contains(s, "io.EOF") && lt.Atom.Op == OpBin && lt.Atom.Tok == token.EQL {
+									neof = true
+								}
+							}
+							rBad = neof
+						}
+						if !rBad && scanOK && es != we {
 							a.bad("FL-err-prec", "ScanSnapshot/write-error-reported", "the pass-through writer failed and the reader had not (or only with EOF), yet the error carried on is "+es+": lines are lost without the caller being told", w.Pos)
 						} else {
 							a.ok("FL-err-prec", "ScanSnapshot/write-error-reported", "a failed write to the pass-through writer is reported unless the reader or the scanner failed first", w.Pos)
@@ -674,6 +687,15 @@ func flReader(c *Ctx, a *flAgg) {
 				if v, ok := p.lit("(" + n + " < 0)"); ok && v && p.Term == "panic" {
 					negPanic = true
 				}
+				// a count known to be zero adds nothing
+				if v, ok := p.lit("(" + n + " == 0)"); ok && v {
+					acc = true
+				}
+				if pos0, ok := p.lit("(0 < " + n + ")"); ok && !pos0 {
+					if neg, ok2 := p.lit("(" + n + " < 0)"); ok2 && !neg {
+						acc = true
+					}
+				}
 				if acc || negPanic {
 					a.ok("FL-fill-account", "fill/count-added", "every byte count returned by Read is added to the write cursor, also when an error comes with it", r.Pos)
 				} else {
@@ -723,8 +745,16 @@ func flReader(c *Ctx, a *flAgg) {
 				errStored := false
 				for _, ev := range p.Events {
 					if ev.Kind == EvStore && strings.HasSuffix(ev.Addr.String(), "r.err") && !ev.Val.isNilConst() {
+						// the reader's own error counts only where it is known to be one
+						if ev.Val.String() == le && !(ok1 && !en) {
+							continue
+						}
 						errStored = true
 					}
+				}
+				dataKnown := (ok2 && pos0) || (ok3 && !zero)
+				if !dataKnown && !(ok1 && !en) && !errStored {
+					empty = true
 				}
 				if (empty || undecided) && !errStored {
 					a.bad("FL-fill-retry", "fill/empty-read-returns", "fill returns after a Read of (0, nil) without recording an error: readSlice calls it again at once, and a reader that keeps returning (0, nil) is polled for ever instead of ending in io.ErrNoProgress", pos)
@@ -907,7 +937,7 @@ func flReader(c *Ctx, a *flAgg) {
 						continue
 					}
 					nSites++
-					if f == rs || defaultInline(f) {
+					if coveredBy(f, rs, map[*ssa.Function]bool{}) {
 						a.ok("FL-fill-guard", "fill/callers", "fill is called only from readSlice's refill point", in.Pos())
 					} else {
 						a.bad("FL-fill-guard", "fill/callers", "fill is also called from "+funcKey(f)+", outside the guarded refill point of readSlice (no failed newline search, pending-error and buffer-full test before it): the reader can block for more input while complete lines are buffered", in.Pos())
